@@ -68,13 +68,20 @@
 /* ---- universe --------------------------------------------------------------- */
 
 #define NSLOT 7
-static const struct { int pgno, subno; } slot[NSLOT] = {
+struct slotdef { int pgno, subno; };
+static const struct slotdef slot_u0[NSLOT] = {
         { 0x100, 0 }, { 0x100, 1 }, { 0x100, 2 }, { 0x150, 0 }, { 0x1AB, 0 }, { 0x899, 0 }, { 0x8FE, 0 },
 };
+/* second universe (phases "hex subpages"): pages with a hexadecimal number keep the S1 digit 0..F as subpage number,
+ * all of them cached side by side; subpage numbers with the digits A..F, next to decimal ones and on the last page */
+static const struct slotdef slot_u1[NSLOT] = {
+        { 0x150, 0 }, { 0x1AB, 1 }, { 0x1AB, 0xA }, { 0x1AB, 0xC }, { 0x2BD, 0xF }, { 0x899, 0 }, { 0x8FE, 0xB },      /* ascending, like slot_u0 */
+};
+static const struct slotdef *slot = slot_u0;
 #define KEY(p, s) (((p) << 16) + (s))
 static int slot_key(int i) { return KEY(slot[i].pgno, slot[i].subno); }
 
-static const int start_pgno[8] = { 0x100, 0x120, 0x150, 0x1AB, 0x300, 0x899, 0x8FE, 0x8FF };
+static const int start_pgno[8] = { 0x100, 0x120, 0x150, 0x1AB, 0x300, 0x899, 0x8FE, 0x8FF };        /* 0x300 lies behind 2BD of the second universe */
 static const int start_subno[3] = { 0, VBI_ANY_SUBNO, 2 };
 
 /* text variants of a page */
@@ -869,7 +876,7 @@ int main(int argc, char **argv)
         mc_meta("assume", "start pages within 0x100..0x8FF; caches holding only undisplayable pages are not explored");
         mc_meta("assume", "100.0 is stored before 100.1/100.2 (storing P.0 replaces another cached subpage of P); 100.1/100.2 in both orders");
         mc_meta("bound", "slots {100.0,100.1,100.2,150.0,1AB.0,899.0,8FE.0} x {absent,'ZIP','ZAP'}: all populations of <= 2 pages and all of %s, x 8 start pages x {0,ANY,2} x 2 directions, "
-                "straight pass + restart; a direction switch after every call on populations of <= 2 pages and on %s; %d text variants one at a time x 7 slots x 3 backgrounds; "
+                "straight pass + restart; the same on slots {150.0,1AB.1,1AB.A,1AB.C,2BD.F,899.0,8FE.B} (hexadecimal subpage numbers); a direction switch after every call on populations of <= 2 pages and on %s; %d text variants one at a time x 7 slots x 3 backgrounds; "
                 "%d patterns (literal/regex/casefold/28 escaped characters) x %d text rotations; one cache update after 0..2 calls on %s; "
                 "BFS: %d slots x 4 texts x %d starts, all sequences of %d operations {next(+1), next(-1), %d updates (at most one)}",
                 T ? "the 7 slots" : "the 6 slots without 1AB.0", T ? "all populations" : "{100.0,100.1,150.0,8FE.0}", NTEXT_ZAP - 1, npats, NPT,
@@ -889,6 +896,17 @@ int main(int argc, char **argv)
         if (!T) {
                 struct phase_arg sw = { m4, 3, 7, 0, 1, ALL_PG, 3 };
                 mc_pool("switch, 3..4 pages", npop(sw.mask), pop_case, &sw, 120);
+        }
+        /* the same population products on the second universe (hexadecimal subpage numbers) */
+        {
+                slot = slot_u1; memset(text_rows, 0, sizeof text_rows);
+                static struct phase_arg h1, h2, h3;
+                h1 = (struct phase_arg){ 0x7F, 0, 1, 1, 1, ALL_PG, 3 }; h2 = (struct phase_arg){ 0x7F, 2, 2, 1, 1, ALL_PG, 3 };
+                h3 = (struct phase_arg){ T ? 0x7F : (S(1) | S(2) | S(3) | S(4) | S(6)), 3, 7, 1, T, ALL_PG, 3 };
+                mc_pool("hex subpages: pass+switch, at most 1 page", npop(0x7F), pop_case, &h1, 60);
+                mc_pool("hex subpages: pass+switch, 2 pages", npop(0x7F), pop_case, &h2, 60);
+                mc_pool(T ? "hex subpages: pass+switch, 3..7 pages" : "hex subpages: pass, 3..5 pages", npop(h3.mask), pop_case, &h3, 120);
+                slot = slot_u0; memset(text_rows, 0, sizeof text_rows);
         }
         struct phase_arg txt = { 0x7F, 0, 7, 1, T, ALL_PG, T ? 3 : 1 };
         mc_pool("text variants, among other pages", (uint64_t) 2 * NSLOT * (NTEXT_ZAP - 1), text_case, &txt, 120);
